@@ -57,6 +57,8 @@ type Thread struct {
 	anon   bool
 	// atomicSync: see SyncPoint.
 	atomicSync bool
+	// yielded: parked at a Yield (see there).
+	yielded bool
 }
 
 // Choice is one recorded choice point of an execution.
@@ -282,6 +284,20 @@ func (s *Sched) AtomicSync(on bool) {
 // Point parks the calling thread until the scheduler picks it.
 func (s *Sched) Point(label string) { s.PointCond(label, nil, nil) }
 
+// Yield is a Point at which the calling thread gives up its claim to be
+// continued by default: the next default choice is the first enabled thread in
+// canonical (priority, name) order, and picking any thread costs nothing.
+func (s *Sched) Yield(label string) {
+	if s == nil {
+		return
+	}
+	th := s.self(label)
+	s.mu.Lock()
+	th.yielded = true
+	s.mu.Unlock()
+	s.PointCond(label, nil, nil)
+}
+
 // PointCond parks the calling thread; it is enabled only while cond() is true
 // (cond == nil means always). If owner is fenced the thread is not parked (or
 // is released without a decision).
@@ -431,7 +447,7 @@ func (s *Sched) stateKey() [16]byte {
 	}
 	// The identity of the last-run thread only matters while it can still be
 	// chosen (switching away from it is what costs a preemption).
-	if s.running != nil && s.running.st == stParked {
+	if s.running != nil && s.running.st == stParked && !s.running.yielded {
 		fmt.Fprintf(h, "R|%s|", s.running.Name)
 	}
 	if s.KeyFn != nil {
@@ -512,7 +528,7 @@ func (s *Sched) Run() {
 		})
 		runningEnabled := false
 		for i, th := range enabled {
-			if th == s.running {
+			if th == s.running && !th.yielded {
 				runningEnabled = true
 				copy(enabled[1:i+1], enabled[:i])
 				enabled[0] = th
@@ -554,6 +570,7 @@ func (s *Sched) Run() {
 		if pick < len(enabled) {
 			th := enabled[pick]
 			th.st = stRunning
+			th.yielded = false
 			s.running = th
 			th.resume <- struct{}{}
 			s.mu.Unlock()
